@@ -18,8 +18,8 @@
 EXTENDS Integers, Sequences, FiniteSets, SequencesExt, Json, IOUtils, TLC
 
 Recs == ndJsonDeserialize(IOEnv.TRACE_FILE)
-VARIABLES i, j, cfg, nruns, ref, bad
-vars == <<i, j, cfg, nruns, ref, bad>>
+VARIABLES i, j, cfg, nruns, ref, refbad, bad
+vars == <<i, j, cfg, nruns, ref, refbad, bad>>
 Unless(ok, clause) == IF ok THEN {} ELSE {clause}
 H == Recs[i]
 E == H.events[j]
@@ -31,7 +31,10 @@ FailsOptimize(e) ==
     THEN Unless(e.raised = "ValueError", "C18.refuse")
     ELSE LET key == <<e.cfgid, e.t>>
              same == \A d \in RefOf(key) : d = e.digest
-         IN  Unless(e.raised = "", IF nruns > 0 THEN "C08.crash" ELSE "C06.replay_crash")
+         IN  IF key \in refbad          \* the key crashes in the reference interpreter too: a crash finding (C06), nothing to compare
+             THEN Unless(e.caller_same, "C09.cfg") \cup Unless(e.task_same, "C09.task")
+             ELSE
+             Unless(e.raised = "", IF nruns > 0 THEN "C08.crash" ELSE "C07.crash_fresh")
              \cup Unless(e.raised # "" \/ nruns > 0 \/ same, "C07.equal")           \* two fresh runs of one key differ
              \cup Unless(e.raised # "" \/ nruns = 0 \/ same, "C08.equal")           \* a used instance differs from a fresh one
              \cup Unless(e.caller_same, "C09.cfg")
@@ -40,15 +43,16 @@ FailsOptimize(e) ==
              \cup Unless(e.cfgid = cfg, "C18.cfgdrift")
 
 Fails(e) ==
-    CASE e.ev = "Ref" -> Unless(e.raised = "", "C07.seedtype")
+    CASE e.ev = "Ref" -> Unless(~e.seedtype, "C07.seedtype")      \* np.random.seed(task.seed) rejected the documented integer seed
       [] e.ev = "Construct" -> Unless(e.raised = "", "C18.construct")
       [] e.ev = "SetConfig" -> IF e.d = -1
                                THEN Unless(e.raised = "ValidationError" /\ e.after = cfg, "C18.invalid")
                                ELSE Unless(e.raised = "" /\ e.equal_built, "C18.setconfig")
       [] e.ev = "Optimize" -> FailsOptimize(e)
+      [] e.ev = "OptimizeBadCall" -> Unless(e.raised \in {"ValueError", "ValidationError"} /\ e.steps = 0, "C06.reject")
       [] OTHER -> {}
 
-Init == i = 1 /\ j = 1 /\ cfg = 0 /\ nruns = 0 /\ ref = {} /\ bad = {}
+Init == i = 1 /\ j = 1 /\ cfg = 0 /\ nruns = 0 /\ ref = {} /\ refbad = {} /\ bad = {}
 
 Step == /\ i <= Len(Recs) /\ j <= Len(H.events)
         /\ bad' = bad \cup {<<H.id, cl>> : cl \in Fails(E)}
@@ -60,14 +64,15 @@ Step == /\ i <= Len(Recs) /\ j <= Len(H.events)
                       [] E.ev = "Optimize" /\ E.raised = "" /\ cfg # 0 -> nruns + 1
                       [] OTHER -> nruns
         /\ ref' = IF E.ev = "Ref" /\ E.raised = "" THEN ref \cup {<<<<E.cfgid, E.t>>, E.digest>>} ELSE ref
+        /\ refbad' = IF E.ev = "Ref" /\ E.raised # "" THEN refbad \cup {<<E.cfgid, E.t>>} ELSE refbad
         /\ j' = j + 1 /\ UNCHANGED i
 
 NextHist == /\ i <= Len(Recs) /\ j = Len(H.events) + 1
-            /\ i' = i + 1 /\ j' = 1 /\ cfg' = 0 /\ nruns' = 0 /\ ref' = {} /\ UNCHANGED bad
+            /\ i' = i + 1 /\ j' = 1 /\ cfg' = 0 /\ nruns' = 0 /\ ref' = {} /\ refbad' = {} /\ UNCHANGED bad
 
 Finish == /\ i = Len(Recs) + 1 /\ j = 1
           /\ JsonSerialize(IOEnv.VERDICT_FILE, [consumed |-> Len(Recs), bad |-> SetToSeq(bad)])
-          /\ j' = 2 /\ UNCHANGED <<i, cfg, nruns, ref, bad>>
+          /\ j' = 2 /\ UNCHANGED <<i, cfg, nruns, ref, refbad, bad>>
 
 Next == Step \/ NextHist \/ Finish
 Spec == Init /\ [][Next]_vars
